@@ -256,6 +256,10 @@ func genDag(r *corr.Run) ([]*tnode, map[string]*chInfo, *interner) {
 		if r.Chance(35) {
 			np = 2 + r.Intn(2)
 		}
+		if r.Chance(6) {
+			np = 0 // hostile: a non-root change without previous ids (must never be attached, nor its descendants)
+			r.Count("treelevel.parentless")
+		}
 		for k := 0; k < np; k++ {
 			p := nodes[r.Intn(len(nodes))].id
 			switch {
